@@ -1,6 +1,8 @@
 package main
 
 import (
+	"gosym/interp"
+	"go/ast"
 	"fmt"
 	"os"
 	"path/filepath"
@@ -102,8 +104,29 @@ func load(pkgDirs []string, withTests bool) (*loaded, error) {
 	}
 	prog, spkgs := ssautil.AllPackages(pkgs, ssa.InstantiateGenerics|ssa.SanityCheckFunctions&0)
 	prog.Build()
+	// harness-supplied models of repo functions: `// sv:models <full name>` on
+	// a function named svModel_*
+	interp.Models = map[string]*ssa.Function{}
+	for _, p := range spkgs {
+		if p == nil {
+			continue
+		}
+		for name, m := range p.Members {
+			f, ok := m.(*ssa.Function)
+			if !ok || !strings.HasPrefix(name, "svModel_") {
+				continue
+			}
+			if fd, ok := f.Syntax().(*ast.FuncDecl); ok && fd.Doc != nil {
+				if mm := modelsRe.FindStringSubmatch(fd.Doc.Text()); mm != nil {
+					interp.Models[mm[1]] = f
+				}
+			}
+		}
+	}
 	return &loaded{prog: prog, pkgs: spkgs, init: pkgs}, nil
 }
+
+var modelsRe = regexp.MustCompile(`sv:models\s+(\S+)`)
 
 // harnesses returns the SV_* functions of the loaded root packages that match re.
 func (l *loaded) harnesses(re *regexp.Regexp) []*ssa.Function {
